@@ -38,12 +38,29 @@ Added probe family (round 4, harness/v4_c01.py, `interrupted_builds`):
     same values rebuilt from keyword arguments, and the default value T() (left out only where a size expression decides an array's
     length: the default instance is then not a value a parse can return).  At the end T is also used as member / array element of an
     outer structure loaded from text.  The model's write / read are compared on the same values.
+
+Added probe family (round 8, harness/v8_c01.py, `wide_magnitudes` / `wide_standalone`):
+  * MAGNITUDES - values whose encodings are long.  The families above draw integers (almost) always within 64 bits and put boundary
+    integers only into structures of fixed size.  Here the members are the types whose values are unbounded or wide - uleb128 /
+    ileb128, int128 / uint128, int64 / uint64 - in every position (scalar member, a[k], a[k][2], a[expression over a count member],
+    a[], a[EOF], in named / anonymous nested structures and arrays of them), interleaved with narrow members so that a reader that
+    stops early or runs on mis-places what follows; either byte order, packed / aligned, interpreted / compiled (definitions without
+    a LEB128 member really use the compiled code).  For a LEB128 member the LENGTH of the encoding is drawn first (1 .. 37 bytes, most
+    of the mass on 9, 10, 11, 12, 16, 19 and more) and then a value with exactly that length: the smallest / largest such value of
+    either sign, a random one, or 2**63, 2**64, 2**69, 2**70, 2**77, 2**126, 2**127, 2**128, 2**200 +- a little and their negatives;
+    the fixed-width members get the edges of their type, the powers of two inside it and random values of full width.  Every value is
+    (a) constructed from keyword arguments (plain ints / typed instances) and (b) parsed from the module's own textbook encoding of
+    the same numbers (sometimes with non-minimal LEB128 encodings, longer than the number needs) followed by foreign bytes; predicate:
+    parse(dumps(v)) == v, consumed == len(dumps(v)); model write / read compared.  Refusals: a fixed-width integer leaf of such a
+    (dynamically sized) structure set to min-1 / max+1 / max+2**bits / +-2**200, or a uleb128 leaf to a negative number, must make
+    dumps raise.  The same for the wide types on their own and for stand-alone array types of them (T[k], T[None], T[EOF],
+    T[K2 + 1], typedef'd, one and two dimensional).
 """
 from __future__ import annotations
 
 import itertools
 
-from .. import defs, impl, refimpl, s1_hist, s1_mixed, u1_arrays, v4_c01
+from .. import defs, impl, refimpl, s1_hist, s1_mixed, u1_arrays, v4_c01, v8_c01
 from ..common import Result, mkrng
 from ..structprops import Engine, load, real_parse, small_unit_bits, rand_bytes, has_eof, has_union, union_dump_incomplete, union_anon_nested
 
@@ -383,7 +400,13 @@ def run(env) -> Result:
                 "with top-bit-set elements and constructed at the edges of the element type). Plus structures built incrementally by "
                 "histories that include start_update() batches left through an exception after some add_field calls (declared with 0..2 "
                 "members, then add_field / start_update / extend+commit / faulted batches; values parsed, rebuilt from keywords and "
-                "default, after every faulted batch and at the end; also nested in an outer structure). distinct = (definition, config, value "
+                "default, after every faulted batch and at the end; also nested in an outer structure). Plus magnitudes: structures of "
+                "uleb128 / ileb128 / int128 / uint128 / int64 / uint64 members in every position (scalar, fixed / 2-d / expression / null-"
+                "terminated / EOF arrays, nested structures and arrays of them) between narrow members, holding values whose LEB128 "
+                "encodings are 1..37 bytes long (mostly 9, 10, 11, 12, 16, 19+: around 2**63, 2**64, 2**69, 2**70, 2**77, 2**126, 2**128 and "
+                "their negatives) and fixed-width values at the edges / of full width; constructed from keywords and parsed from an "
+                "independent textbook encoding (also non-minimal LEB128); out-of-range leaves of dynamically sized structures and negative "
+                "uleb128 must be refused; the same for the stand-alone types and array types of them. distinct = (definition, config, value "
                 "bytes); non-trivial = >= 2 fields or a composite field and >= 2 bytes")
     eng = Engine(env, res, "C01")
     rnd = mkrng(env["seed"], "c01")
@@ -462,6 +485,10 @@ def run(env) -> Result:
     eng.flush()
     v4_c01.interrupted_builds(eng, res, mkrng(env["seed"], "c01-interrupted-builds"), tier,
                               check_roundtrip=check_roundtrip, check_constructed=check_constructed)
+    eng.flush()
+    v8_c01.wide_magnitudes(eng, res, mkrng(env["seed"], "c01-magnitudes"), tier,
+                           check_roundtrip=check_roundtrip, check_constructed=check_constructed, load=load)
+    v8_c01.wide_standalone(eng, res, mkrng(env["seed"], "c01-magnitudes-standalone"), tier)
     eng.flush()
     return res
 
